@@ -347,6 +347,18 @@ func init() {
 				},
 				Run: c02ConstExpr,
 			},
+			{
+				// environment members of defined types (type Level int): the
+				// rewrites decide on the kind, the run-time helpers on the type
+				Name: "named-types",
+				N: func(tier string) uint64 {
+					if tier == "thorough" {
+						return 150000
+					}
+					return 4000
+				},
+				Run: c02Named,
+			},
 		},
 		Post: func(a *runner.Aggregate) []string {
 			var out []string
@@ -375,6 +387,9 @@ func c02Corpus(c *runner.Ctx, idx uint64) {
 		// type; constants are not charged to the budget)
 		"FnAnys([1, 2, 3])", `FnAnys(["a", "b"])`, `FnAnys([1, "a"])`, "FnAnys([A, 2])", "len([1..600000, 1..600000])",
 		"len(-2..9223372036854775807)", "A in -4611686018427387904..0", "A in 1..2000000", "(9223372036854775806..-9223372036854775807)[1:3]",
+		// a folded negative zero next to a positive one; folded sequences inside map values; a folded pattern that is never matched
+		"[1 / 0.0, 1 / ((-2) ** -1075)]", "[0.0, (-2) ** -1075, 1 / ((-2) ** -1075)]", `{"a": 1..2} == {"a": [1, 2]}`, `{"a": [1, 2]} == {"a": [1, 2]}`, `{"k": {"a": [1, "b"]}} == {"k": {"a": [1, "b"]}}`, `[{"a": 1..2}] == [{"a": [1, 2]}]`,
+		`false and S matches "[" + "a"`, `false ? "x" matches "(" + "a" : false`, `true or S matches "*" + ""`,
 	}
 	for _, s := range srcs {
 		styles, seeds := EnvStyles(runner.NewRng(c.Seed, runner.HashString(s)), 4)
@@ -391,7 +406,7 @@ func c02Corpus(c *runner.Ctx, idx uint64) {
 // a result; it can only move the failure of that call to compile time.
 func c02ConstExpr(c *runner.Ctx, idx uint64) {
 	r := c.R
-	fns := []string{"FnI", "FnII", "FnS", "FnF", "FnB", "Div", "FnAny", "FnVar", "Inc", "Cat", "FnU8", "FnInts", "MkItem", "Fast", "EqAny", "MkBox", "MkBox"}
+	fns := []string{"FnI", "FnII", "FnS", "FnF", "FnB", "Div", "FnAny", "FnVar", "Inc", "Cat", "FnU8", "FnInts", "MkItem", "Fast", "EqAny", "MkBox", "MkBox", "FnCel", "FnLvl"}
 	fn := r.Pick(fns)
 	arg := func(kind string) string {
 		switch kind {
@@ -440,6 +455,10 @@ func c02ConstExpr(c *runner.Ctx, idx uint64) {
 			call = fmt.Sprintf("Fast(%s, %s)", arg("any"), arg("int"))
 		case "EqAny":
 			call = fmt.Sprintf("EqAny(%s, %s)", arg("any"), arg("any"))
+		case "FnCel":
+			call = fmt.Sprintf("FnCel(%s)", r.Pick([]string{"1", "2 + 1", "-3", "7 / 2", "1.5"}))
+		case "FnLvl":
+			call = fmt.Sprintf("FnLvl(%s)", r.Pick([]string{"1", "2 + 1", "-3", "7 / 2"}))
 		case "MkBox":
 			// the constant is a struct holding slices
 			call = fmt.Sprintf(r.Pick([]string{"MkBox(%s).N", "MkBox(%s).Xs[0]", "len(MkBox(%s).Xs)", "MkBox(%s).Xs", "MkBox(%s).Any"}), arg("int"))
@@ -506,7 +525,7 @@ func c02ConstExpr(c *runner.Ctx, idx uint64) {
 			c.Violate("constexpr-run-panic", fmt.Sprint(o0.Panic, o1.Panic), cas)
 			return
 		}
-		if o1.Failed() && !o0.Failed() || (!o0.Failed() && !o1.Failed() && mon.Canon(o0.Val) != mon.Canon(o1.Val)) {
+		if o1.Failed() != o0.Failed() || (!o0.Failed() && !o1.Failed() && mon.Canon(o0.Val) != mon.Canon(o1.Val)) {
 			cas["plain"] = o0.String()
 			cas["with_constexpr"] = o1.String()
 			c.Violate("constexpr-diff:"+fn, fmt.Sprintf("plain %s, with ConstExpr %s", o0, o1), cas)
@@ -531,4 +550,58 @@ func contains(xs []string, s string) bool {
 		}
 	}
 	return false
+}
+
+func c02Named(c *runner.Ctx, idx uint64) {
+	r := c.R
+	src := c15NamedSrc(r)
+	c.Begin(src)
+	pOn, coOn := SafeCompile(src, expr.Env(C15Named{}))
+	pOff, coOff := SafeCompile(src, expr.Env(C15Named{}), expr.Optimize(false))
+	c.Eval(2)
+	cas := map[string]interface{}{"source": src, "environment": "C15Named (members of defined string/int/float/bool/slice/map types)", "optimized_compile": coOn.String(), "unoptimized_compile": coOff.String()}
+	if coOn.Panic != nil || coOff.Panic != nil {
+		c.Violate("compile-panic:named-types", fmt.Sprint(coOn.Panic, coOff.Panic), cas)
+		return
+	}
+	if (coOn.Err != nil) != (coOff.Err != nil) {
+		if coOn.Err != nil && strings.Contains(coOn.Err.Error(), "integer divide by zero") && srcHasConstDivZero(src) {
+			return
+		}
+		c.Violate("compile-verdict-differs:named-types", fmt.Sprintf("optimized %s, unoptimized %s", coOn, coOff), cas)
+		return
+	}
+	if coOn.Err != nil {
+		c.Count("rejected_by_both", 1)
+		return
+	}
+	c.Distinct("named|" + src)
+	for k := 0; k < 4; k++ {
+		e := C15Named{Col: C15Str(r.Pick([]string{"a", "b", "c", ""})), ID: C15Int(k), Rt: C15Float(float64(k) + []float64{0, 0.5}[r.Intn(2)]), Fl: C15Bool(r.Bool()),
+			L: C15List{1, 2, 3}[:1+r.Intn(3)], D: C15Dict{"a": 1, "b": 2}, IDs: []C15Int{1, 2, 3}[:1+r.Intn(3)], Cols: []C15Str{"a", "b"}[:1+r.Intn(2)],
+			ByCol: map[C15Str]int{"a": 1, "c": 3}, A: k, S: r.Pick([]string{"a", "b", "c"}), X: float64(k) + []float64{0, 0.5}[r.Intn(2)],
+			Ints: []int{1, 2, 3}, Strs: []string{"a", "b"}, MI: map[string]int{"a": 1}}
+		e.AnyC = []interface{}{C15Str("a"), "a", C15Str("z"), 1}[r.Intn(4)]
+		e.AnyN = []interface{}{C15Int(2), 2, 2.0, C15Float(2), "a"}[r.Intn(5)]
+		oOn, oOff := SafeRun(pOn, e), SafeRun(pOff, e)
+		c.Eval(2)
+		c.Count("run_pairs", 1)
+		if oOn.Panic != nil || oOff.Panic != nil || oOn.Failed() != oOff.Failed() || (!oOn.Failed() && mon.Canon(oOn.Val) != mon.Canon(oOff.Val)) {
+			cas["optimized"], cas["unoptimized"], cas["env"] = oOn.String(), oOff.String(), fmt.Sprintf("%+v", e)
+			kind := "value"
+			if oOn.Failed() != oOff.Failed() {
+				kind = "fails-only-unoptimized"
+				if oOn.Failed() {
+					kind = "fails-only-optimized"
+				}
+			}
+			c.Violate("diff:named-types:"+kind, fmt.Sprintf("optimized %s, unoptimized %s", oOn, oOff), cas)
+			return
+		}
+		if oOn.Failed() {
+			c.Count("both_failed", 1)
+		} else {
+			c.Count("both_equal", 1)
+		}
+	}
 }
